@@ -285,7 +285,7 @@ class Engine:
             v = v.func
         return v
 
-    def run_contract(self, entry, prop):
+    def run_contract(self, entry, prop, only_case=None):
         I = self.I
         cls = entry['cls']
         cname = cls.name
@@ -311,6 +311,8 @@ class Engine:
             self.functions.add(target)
         obls = []
         for case, ckw in cases.items():
+            if only_case is not None and case != only_case:
+                continue
             ckw = dict(I.dict_items(ckw)) if not isinstance(ckw, dict) else ckw
             pathno = [0]
 
@@ -474,7 +476,7 @@ class Engine:
         trigmap = {}
         for key, val in ctx.trig_cache.items():
             if key[0] == 'trig' and len(val) == 3 and z3.is_const(val[2]) and val[2].decl().kind() == z3.Z3_OP_UNINTERPRETED:
-                trigmap[val[2].decl().name()] = (val[0].e.decl().name(), val[1].e.decl().name())
+                trigmap[val[2].decl().name()] = ('cosf', 'sinf')
         meta['trig'] = trigmap
         univ = []
         for (nn, f) in ctx.ghost.get('univ', []):
@@ -550,6 +552,12 @@ class Engine:
             soft = sname.startswith('soft:')
             add(f'side.{sname[5:] if soft else sname}#{i}', cond, kind='soft' if soft else 'side', hy=list(N.GLOBAL_FACTS) + list(ctx.facts) + list(pcs))
         return obls
+
+    def case_names(self, entry):
+        cases = self.contract_attr(entry['cls'], 'cases')
+        if cases is None:
+            return ['default']
+        return [k for k, _ in self.I.dict_items(cases)]
 
     def case_kwargs(self, entry, case):
         I = self.I
@@ -662,6 +670,14 @@ def _solve(job):
         model = None
         if r == z3.sat:
             m = s.model()
+            # a counterexample is only believed if the model really satisfies every assertion (guards against incomplete
+            # nonlinear + uninterpreted-function combinations); otherwise the obligation is undecided
+            try:
+                bad = [a for a in asserts if not z3.is_true(m.eval(a, model_completion=True))]
+            except z3.Z3Exception:
+                bad = [None]
+            if bad:
+                return idx, 'unknown', time.time() - t0, None, backend, 'candidate model does not validate (incomplete theory combination)'
             model = {}
             for d in m.decls():
                 if d.arity() == 0:
@@ -761,4 +777,34 @@ def discharge(obls, timeout_ms=20000, seed=0, procs=None, cross_check=False):
             if o.status == 'valid' and o.backend not in ('trivial', 'cvc5') and getattr(o, 'smt', None):
                 r = cvc5_check(o.smt, 30)
                 o.cross = r
+    return obls
+
+
+def discharge_local(obls, timeout_ms=20000, seed=0):
+    """discharge in this process (used inside pool workers: one worker per contract case)"""
+    for i, o in enumerate(obls):
+        if o.goal is None:
+            continue
+        g = z3.simplify(o.goal)
+        if z3.is_true(g):
+            o.status, o.backend, o.time = 'valid', 'trivial', 0.0
+            continue
+        o.smt = to_smt2(o.hyps, o.goal)
+        idx, status, t, model, backend, reason = _solve((i, o.smt, timeout_ms, seed))
+        o.time, o.backend = t, backend
+        if status == 'unsat':
+            o.status = 'valid'
+        elif status == 'sat':
+            o.status, o.model = 'violated', model
+            if o.kind == 'soft':
+                o.status, o.reason = 'undecided', 'outside the modelled range: ' + o.name
+        elif status == 'error':
+            o.status, o.reason = 'error', reason
+        else:
+            o.status, o.reason = 'undecided', f'solver: {reason}'
+            r = cvc5_check(o.smt, 40)
+            if r == 'unsat':
+                o.status, o.backend = 'valid', 'cvc5'
+            elif r == 'sat':
+                o.status, o.backend = 'violated', 'cvc5'
     return obls
